@@ -15,12 +15,21 @@
   * `fresh ≠ ""` — the id drawn from `uuid4` is not the empty string (an empty id would make the request a
     notification).
   * `name ≠ ""` — the server refuses an empty method name before looking it up.
-  * no keyword is called `self` — Python itself rejects `proxy.m(self=…)` at the call
-    (`_Method.__call__(self, *args, **kwargs)`), see `methodParams`.
+  * (none about keyword names: since fix 04aca15 `_Method.__call__(*args, **kwargs)` and
+    `MultiCallMethod.__call__(*args, **kwargs)` take their receiver positionally, so a keyword called
+    `self` is an ordinary keyword — `methodParams` / `jobParams` do not look at the keys; see the example
+    with a `"self"` key at the end of the file.)
   * `pool ≠ full` for calls (a full notification pool only matters for notifications), `pool = absent` for
     notifications (C01 is about the inline invocation; the pooled path is C04/C09).
   * `custom = none`: the server uses its own `_dispatch` (registry look-up), which is what "callable
     registered on a server" means.
+
+  Map: `C01_request` / `C01_single` / `C01_kwargs` / `C01_no_args` / `C01_dotted` / `C01_falsy` / `C01_raises` /
+  `C01_notify` (class translation off), `C01_single_jsonclass` / `C01_notify_jsonclass` (translation on, any
+  combination of flags), `C01_batch` (every call job returns), `C01_batch_mixed` (ANY mixture of returning,
+  raising, unknown and non-binding jobs, calls and notifications, translation on or off: per-position outcome,
+  invocations, History), `C01_batch_jsonclass` (= the formerly unproved `C01_batch_jsonclass_full_statement`),
+  `C01_batch_position`, `C01_batch_all_notifications`.  Nothing is left as an unproved `def`.
 -/
 import JRV.Lemmas.EndToEnd
 import JRV.Properties.C05
@@ -304,7 +313,7 @@ theorem C01_kwargs (B : Backend) (hg : Gate20) (c : Proxy) (p : Peer) (h : Histo
     (hsv : p.srv.cfg.version = 10 ∨ p.srv.cfg.version = 20)
     (hcustom : p.srv.custom = Option.none) (hpool : p.srv.pool ≠ .full)
     (hfresh : fresh ≠ "") (hpath : pathOk path = true) (hname : dottedName path ≠ "")
-    (hkw : kwargs ≠ []) (hself : hasKeyStr "self" kwargs = false) (hwf : (PyVal.dict kwargs).wfJson = true)
+    (hkw : kwargs ≠ []) (hwf : (PyVal.dict kwargs).wfJson = true)
     (hres : resolves p.srv.reg (dottedName path) = some (t, f))
     (hbind : binds f.sig (.dict (normaliseKVs kwargs)) = true)
     (hret : f.body (.dict (normaliseKVs kwargs)) = .ret v) (hv : v.wfJson = true) :
@@ -312,7 +321,7 @@ theorem C01_kwargs (B : Backend) (hg : Gate20) (c : Proxy) (p : Peer) (h : Histo
       Exchange B.codec p h (EndToEnd.call B.codec c p h fresh path [] kwargs) req rep v.normalise
         [.call t (.str (dottedName path)) (.dict (normaliseKVs kwargs))] := by
   have hmp : methodParams [] kwargs = .ok (.dict kwargs) := by
-    simp [methodParams, hself, truthy, pure, Except.pure]
+    simp [methodParams, truthy, pure, Except.pure]
   have hsp : serverParams (.dict kwargs) = .dict (normaliseKVs kwargs) := by
     cases kwargs <;> simp_all [serverParams, truthy, normalise]
   rw [call_eq _ c p h fresh path [] kwargs _ hpath hmp]
@@ -455,14 +464,18 @@ theorem C01_raises (B : Backend) (hg : Gate20) (c : Proxy) (p : Peer) (h : Histo
 
 /- ---------- notifications ---------- -/
 
-/-- `proxy._notify.<name>(…)`: returns `None`, the callable is invoked exactly once, inline (no
-    notification pool), with the sent parameters — whether its body returns or raises —, and the History
-    records the empty string as the response.  Class translation off. -/
-theorem C01_notify (B : Backend) (c : Proxy) (p : Peer) (h : History)
-    (fresh name : String) (params : PyVal) (t : Target) (f : Callable)
-    (hcoff : c.cfg.useJsonclass = false) (hsoff : p.srv.cfg.useJsonclass = false)
+/-- One notification through the composed system, the class translators described by their effect on the
+    two values they meet (`hcc`: the client's `jsonclass.dump` on the parameters, `hsu`: the server's
+    `jsonclass.load` on the parsed request). -/
+private theorem core_notify (B : Backend) (c : Proxy) (p : Peer) (h : History)
+    (fresh name : String) (params p' : PyVal) (t : Target) (f : Callable)
     (hcustom : p.srv.custom = Option.none) (hpool : p.srv.pool = .absent) (hname : name ≠ "")
-    (hshape : params.isTuple = true ∨ params.isDict = true) (hwf : params.wfJson = true)
+    (hshape : params.isTuple = true ∨ params.isDict = true)
+    (hcc : effConv c.cfg c.conv params = .ok p')
+    (hp'wf : p'.wfJson = true) (hp'n : p'.normalise = params.normalise)
+    (hp's : p'.isTuple = true ∨ p'.isDict = true ∨ p'.isList = true)
+    (hsu : ∀ ver, Payload.load p.srv.cfg p.unconv (normalise (.dict (notifKVs ver (.str fresh) name p'))) =
+             .ok (normalise (.dict (notifKVs ver (.str fresh) name p'))))
     (hres : resolves p.srv.reg name = some (t, f))
     (hbind : binds f.sig (serverParams params) = true) :
     ∃ req, req ≠ "" ∧
@@ -473,16 +486,18 @@ theorem C01_notify (B : Backend) (c : Proxy) (p : Peer) (h : History)
   have hcont : containerParams params = true := by
     rcases hshape with h | h <;> simp [containerParams, h]
   have hdump : dump c.cfg c.conv fresh (.val params) (.str name) .none c.version false true =
-      .ok (.dict (notifKVs ver (.str fresh) name params)) := by
-    rw [C14_dump_request c.cfg c.conv fresh params params name .none c.version true hcont (effConv_off _ _ hcoff _)]
+      .ok (.dict (notifKVs ver (.str fresh) name p')) := by
+    rw [C14_dump_request c.cfg c.conv fresh params p' name .none c.version true hcont hcc]
     simp [notify_eq, hverdef]
-  have sh := notifKVs_shape ver (.str fresh) name params
-  obtain ⟨req, hrender, hreqne, hparse⟩ := B.roundtrip _ (sh.hwf hwf)
-  have hent := entry_notify p.srv hcustom hpool sh hname (by rcases hshape with h | h <;> simp [h]) t f hres hbind
+  have sh := notifKVs_shape ver (.str fresh) name p'
+  obtain ⟨req, hrender, hreqne, hparse⟩ := B.roundtrip _ (sh.hwf hp'wf)
+  have hsp : serverParams p' = serverParams params := serverParams_congr hp'n
+  have hent := entry_notify p.srv hcustom hpool sh hname hp's t f hres (by rw [hsp]; exact hbind)
+  rw [hsp] at hent
   have heff : (invoke t (some f) (.str name) (serverParams params)).2 = [.call t (.str name) (serverParams params)] := by
     simp only [invoke, hbind, ↓reduceIte]
     cases f.body (serverParams params) <;> rfl
-  have hmd : Server.marshaledDispatch p.srv (.parsed (normalise (.dict (notifKVs ver (.str fresh) name params)))) =
+  have hmd : Server.marshaledDispatch p.srv (.parsed (normalise (.dict (notifKVs ver (.str fresh) name p')))) =
       (.ok .empty, [.call t (.str name) (serverParams params)]) := by
     simp only [normalise]
     rw [marshaled_single p.srv (by simp [hpool])]
@@ -490,9 +505,9 @@ theorem C01_notify (B : Backend) (c : Proxy) (p : Peer) (h : History)
     · exact truthy_dict_of_lookup' (by rw [lookupStr_normaliseKVs, sh.hmethod]; rfl)
     · rfl
   have hne : (req == "") = false := by simpa using hreqne
-  have hsparse : serverParse B.codec p req = .ok (.parsed (normalise (.dict (notifKVs ver (.str fresh) name params)))) := by
-    have hparse' : B.codec.parse req = some (normalise (.dict (notifKVs ver (.str fresh) name params))) := hparse
-    simp [serverParse, loadsK, hne, hparse', load_off _ _ hsoff, pure, Except.pure]
+  have hsparse : serverParse B.codec p req = .ok (.parsed (normalise (.dict (notifKVs ver (.str fresh) name p')))) := by
+    have hparse' : B.codec.parse req = some (normalise (.dict (notifKVs ver (.str fresh) name p'))) := hparse
+    simp [serverParse, loadsK, hne, hparse', hsu ver, pure, Except.pure]
   have hserve : serve B.codec p req = (.ok "", [.call t (.str name) (serverParams params)]) := by
     simp [serve, hsparse, hmd]
   have hd : dumpsK B.codec c.cfg c.conv fresh (.val params) (.str name) .none c.version false true = .ok req := by
@@ -502,6 +517,23 @@ theorem C01_notify (B : Backend) (c : Proxy) (p : Peer) (h : History)
       pure, Except.pure, bind]
   · simp [requestNotify, hd, runRequest, hserve]
   · simp [requestNotify, hd, runRequest, hserve, History.addRequest, History.addResponse]
+
+/-- `proxy._notify.<name>(…)`: returns `None`, the callable is invoked exactly once, inline (no
+    notification pool), with the sent parameters — whether its body returns or raises —, and the History
+    records the empty string as the response.  Class translation off (on: `C01_notify_jsonclass`). -/
+theorem C01_notify (B : Backend) (c : Proxy) (p : Peer) (h : History)
+    (fresh name : String) (params : PyVal) (t : Target) (f : Callable)
+    (hcoff : c.cfg.useJsonclass = false) (hsoff : p.srv.cfg.useJsonclass = false)
+    (hcustom : p.srv.custom = Option.none) (hpool : p.srv.pool = .absent) (hname : name ≠ "")
+    (hshape : params.isTuple = true ∨ params.isDict = true) (hwf : params.wfJson = true)
+    (hres : resolves p.srv.reg name = some (t, f))
+    (hbind : binds f.sig (serverParams params) = true) :
+    ∃ req, req ≠ "" ∧
+      dumpsK B.codec c.cfg c.conv fresh (.val params) (.str name) .none c.version false true = .ok req ∧
+      Exchange B.codec p h (requestNotify B.codec c p h fresh name params) req "" .none
+        [.call t (.str name) (serverParams params)] :=
+  core_notify B c p h fresh name params params t f hcustom hpool hname hshape (effConv_off _ _ hcoff _) hwf rfl
+    (by rcases hshape with h | h <;> simp [h]) (fun _ => load_off _ _ hsoff _) hres hbind
 
 
 /- ---------- MultiCall ---------- -/
@@ -985,14 +1017,574 @@ theorem C01_single_jsonclass (B : Backend) (hg : Gate20) (c : Proxy) (p : Peer) 
       · rw [response_v1 ver (by omega)]; simp [normalise]))
     hres hbind hret
 
-/- ---------- what is not closed ---------- -/
+/- ---------- notifications with class translation on ---------- -/
 
-/-- NOT PROVED.  `C01_batch` with class translation ON (any combination of the proxy's, the MultiCall's
-    and the server's flags) for payloads free of `"__jsonclass__"` and transparent translators.  The
-    proved statement is `C01_batch` (all three flags off); the single-call case with translation on is
-    `C01_single_jsonclass`.  Missing: threading `effConv_transparent` / `load_transparent` through
-    `render_jobs`, `entry_job` and `client_results` (the job documents then carry `normalise params`
-    and the reply array `normalise (ret j)`), and `jcFree` of the batch array. -/
+private theorem jcFree_notif (ver : Nat) (fresh name : String) (p : PyVal) (hp : jcFree p = true) :
+    jcFree (normalise (.dict (notifKVs ver (.str fresh) name p))) = true := by
+  apply jcFree_normalise
+  by_cases ht : p.truthy = true <;> by_cases h20 : ver ≥ 20 <;> by_cases h11 : ver < 11 <;>
+    simp [notifKVs, reqKVs, delStr, setStr, jcFree, jcFreeKVs, jcFreeList, ht, h20, h11, hp]
+
+/-- `C01_notify` with class translation possibly ON on either side, for parameters free of
+    `"__jsonclass__"` keys and transparent translators. -/
+theorem C01_notify_jsonclass (B : Backend) (c : Proxy) (p : Peer) (h : History)
+    (fresh name : String) (params : PyVal) (t : Target) (f : Callable)
+    (Tc : Transparent c.cfg c.conv c.unconv) (Ts : Transparent p.srv.cfg p.srv.conv p.unconv)
+    (hcustom : p.srv.custom = Option.none) (hpool : p.srv.pool = .absent) (hname : name ≠ "")
+    (hshape : params.isTuple = true ∨ params.isDict = true) (hwf : params.wfJson = true) (hfree : jcFree params = true)
+    (hres : resolves p.srv.reg name = some (t, f))
+    (hbind : binds f.sig (serverParams params) = true) :
+    ∃ req, req ≠ "" ∧
+      dumpsK B.codec c.cfg c.conv fresh (.val params) (.str name) .none c.version false true = .ok req ∧
+      Exchange B.codec p h (requestNotify B.codec c p h fresh name params) req "" .none
+        [.call t (.str name) (serverParams params)] := by
+  obtain ⟨p', hcc, hp'wf, hp'n, hp'free, hp'eq⟩ := effConv_transparent c.cfg c.conv c.unconv Tc params hwf hfree
+  have hp's : p'.isTuple = true ∨ p'.isDict = true ∨ p'.isList = true := by
+    rcases hp'eq with rfl | rfl
+    · rcases hshape with h | h <;> simp [h]
+    · cases params <;> simp_all [isTuple, isDict, isList, normalise]
+  exact core_notify B c p h fresh name params p' t f hcustom hpool hname hshape hcc hp'wf hp'n hp's
+    (fun ver => load_transparent _ _ _ Ts _ (jcFree_notif ver fresh name p' hp'free) (by simp [normalise]))
+    hres hbind
+
+/-- The statement that used to be recorded as not proved; it is `C01_notify_jsonclass` read off. -/
+def C01_notify_jsonclass_full_statement : Prop :=
+  ∀ (B : Backend) (c : Proxy) (p : Peer) (h : History) (fresh name : String) (params : PyVal) (t : Target) (f : Callable),
+    Transparent c.cfg c.conv c.unconv → Transparent p.srv.cfg p.srv.conv p.unconv →
+    p.srv.custom = Option.none → p.srv.pool = .absent → name ≠ "" →
+    (params.isTuple = true ∨ params.isDict = true) → params.wfJson = true → jcFree params = true →
+    resolves p.srv.reg name = some (t, f) → binds f.sig (serverParams params) = true →
+    (requestNotify B.codec c p h fresh name params).value = .ok .none ∧
+    (requestNotify B.codec c p h fresh name params).effects = [.call t (.str name) (serverParams params)] ∧
+    (requestNotify B.codec c p h fresh name params).history.responses = h.responses ++ [""]
+
+theorem C01_notify_jsonclass_full : C01_notify_jsonclass_full_statement := by
+  intro B c p h fresh name params t f Tc Ts hcustom hpool hname hshape hwf hfree hres hbind
+  obtain ⟨req, _, _, ex⟩ := C01_notify_jsonclass B c p h fresh name params t f Tc Ts hcustom hpool hname hshape hwf
+    hfree hres hbind
+  exact ⟨ex.value_eq, ex.effects_eq, by rw [ex.history_eq]⟩
+
+/- ---------- MultiCall, any mixture of outcomes, class translation on or off ---------- -/
+
+/-- What the server does with one job of a batch. -/
+inductive Fate where
+  /-- the method denotes a callable that accepts the parameters and returns `v` -/
+  | returns (t : Target) (f : Callable) (v : PyVal)
+  /-- … that accepts the parameters and raises `cls(text)` -/
+  | raises (t : Target) (f : Callable) (cls text : String)
+  /-- the method is not known to the server -/
+  | unknown
+  /-- the method denotes a callable that does not accept the parameters -/
+  | nobind
+
+/-- The hypothesis that goes with each fate. -/
+def Fate.holds (reg : Registry) (j : Job) : Fate → Prop
+  | .returns t f v =>
+    resolves reg j.method = some (t, f) ∧ binds f.sig (serverParams j.params) = true ∧
+      f.body (serverParams j.params) = .ret v ∧ (j.notify = false → v.wfJson = true)
+  | .raises t f cls text =>
+    resolves reg j.method = some (t, f) ∧ binds f.sig (serverParams j.params) = true ∧
+      ∃ te ae, f.body (serverParams j.params) = .raised cls text te ae
+  | .unknown => unknownName reg j.method = true
+  | .nobind => ∃ t f, resolves reg j.method = some (t, f) ∧ binds f.sig (serverParams j.params) = false
+
+/-- What `_dispatch` returns for the job. -/
+def Fate.disp (m : String) : Fate → DispResult
+  | .returns _ _ v => .value v
+  | .raises _ _ cls text => .fault codeInternal (msgServerError cls text)
+  | .unknown => .fault codeUnknown (msgUnknown m)
+  | .nobind => .fault codeParams msgParams
+
+/-- The invocations the job causes: one for a callable that is entered, none otherwise. -/
+def Fate.effects (m : String) (q : PyVal) : Fate → List Effect
+  | .returns t _ _ => [.call t (.str m) q]
+  | .raises t _ _ _ => [.call t (.str m) q]
+  | .unknown => []
+  | .nobind => []
+
+/-- What the client gets when it accesses the job's position of the iterator. -/
+def Fate.client (m : String) : Fate → PyM PyVal
+  | .returns _ _ v => .ok v.normalise
+  | .raises _ _ cls text =>
+    .error { cls := "ProtocolError", arg := .tuple [.int (-32603), .str (msgServerError cls text)] }
+  | .unknown => .error { cls := "ProtocolError", arg := .tuple [.int (-32601), .str (msgUnknown m)] }
+  | .nobind => .error { cls := "ProtocolError", arg := .tuple [.int (-32602), .str msgParams] }
+
+/-- What a transparent translator does to a plain value: JSON normalisation when it is switched on. -/
+def tr (cfg : Config) (v : PyVal) : PyVal := if cfg.useJsonclass then v.normalise else v
+
+/-- The response object of the job (`cfg`: the server's configuration). -/
+def Fate.respDoc (cfg : Config) (rid : PyVal) (m : String) : Fate → PyVal
+  | .returns _ _ v => Payload.response cfg.version rid (tr cfg v)
+  | .raises _ _ cls text => Payload.error cfg.version rid (.int codeInternal) (.str (msgServerError cls text)) .none
+  | .unknown => Payload.error cfg.version rid (.int codeUnknown) (.str (msgUnknown m)) .none
+  | .nobind => Payload.error cfg.version rid (.int codeParams) (.str msgParams) .none
+
+/-- A job with its fate: what `C01_batch_mixed` assumes of each. -/
+structure JobSpec (reg : Registry) (x : Job × Fate) : Prop where
+  hname : x.1.method ≠ ""
+  hshape : x.1.params.isTuple = true ∨ x.1.params.isDict = true ∨ x.1.params.isList = true
+  hwf : x.1.params.wfJson = true
+  hfate : x.2.holds reg x.1
+
+/-- "Payloads free of `__jsonclass__`": the parameters, and the value returned to a call. -/
+structure JobFree (x : Job × Fate) : Prop where
+  params : jcFree x.1.params = true
+  result : ∀ t f v, x.2 = .returns t f v → x.1.notify = false → jcFree v = true
+
+def answered (js : List (Job × Fate)) : List (Job × Fate) := js.filter (fun x => !x.1.notify)
+def jobEffects (x : Job × Fate) : List Effect := x.2.effects x.1.method (serverParams x.1.params)
+def jobClient (x : Job × Fate) : PyM PyVal := x.2.client x.1.method
+
+private theorem tr_wf (cfg : Config) (v : PyVal) (h : v.wfJson = true) : (tr cfg v).wfJson = true := by
+  simp only [tr]; split
+  · exact wfJson_normalise v h
+  · exact h
+
+private theorem tr_norm (cfg : Config) (v : PyVal) : (tr cfg v).normalise = v.normalise := by
+  simp only [tr]; split
+  · exact normalise_idem v
+  · rfl
+
+private theorem tr_free (cfg : Config) (v : PyVal) (h : jcFree v = true) : jcFree (tr cfg v) = true := by
+  simp only [tr]; split
+  · exact jcFree_normalise v h
+  · exact h
+
+private theorem tr_shape (cfg : Config) (v : PyVal) (h : v.isTuple = true ∨ v.isDict = true ∨ v.isList = true) :
+    (tr cfg v).isTuple = true ∨ (tr cfg v).isDict = true ∨ (tr cfg v).isList = true := by
+  simp only [tr]; split
+  · cases v <;> simp_all [isTuple, isDict, isList, normalise]
+  · exact h
+
+private theorem effConv_tr (cfg : Config) (conv unconv : PyVal → PyM PyVal) (T : Transparent cfg conv unconv)
+    (v : PyVal) (hwf : v.wfJson = true) (hf : cfg.useJsonclass = true → jcFree v = true) :
+    effConv cfg conv v = .ok (tr cfg v) := by
+  cases hu : cfg.useJsonclass with
+  | false => simp [effConv, tr, hu, pure, Except.pure]
+  | true => simp [effConv, tr, hu, T.conv_ok hu v hwf (hf hu)]
+
+private theorem load_tr (cfg : Config) (conv unconv : PyVal → PyM PyVal) (T : Transparent cfg conv unconv)
+    (d : PyVal) (hd : cfg.useJsonclass = true → jcFree d = true) (hn : d ≠ .none) : Payload.load cfg unconv d = .ok d := by
+  cases hu : cfg.useJsonclass with
+  | false => exact load_off cfg unconv hu d
+  | true => exact load_transparent cfg conv unconv T d (hd hu) hn
+
+/-- `Transparent` asks nothing of a side whose translation is off. -/
+theorem Transparent.of_off (cfg : Config) (conv unconv : PyVal → PyM PyVal) (h : cfg.useJsonclass = false) :
+    Transparent cfg conv unconv :=
+  { conv_ok := fun hu => (by rw [h] at hu; cases hu), unconv_ok := fun hu => (by rw [h] at hu; cases hu) }
+
+/-- The dispatcher on a job, by its fate (−32601: `C05_unknown`). -/
+private theorem fate_dispatch (s : Server) (hcustom : s.custom = Option.none) (j : Job) (o : Fate)
+    (h : o.holds s.reg j) :
+    runDispatcher s (.str j.method) (serverParams j.params) =
+      (.ok (o.disp j.method), o.effects j.method (serverParams j.params)) := by
+  cases o with
+  | returns t f v =>
+    obtain ⟨hr, hb, hbody, _⟩ := h
+    rw [runDispatcher_resolves s hcustom _ _ t f hr, invoke_ret t f _ _ v hb hbody]; rfl
+  | raises t f cls text =>
+    obtain ⟨hr, hb, te, ae, hbody⟩ := h
+    rw [runDispatcher_resolves s hcustom _ _ t f hr, invoke_raised t f _ _ cls text te ae hb hbody]; rfl
+  | unknown =>
+    simp only [Fate.holds, unknownName, Bool.and_eq_true, Option.isNone_iff_eq_none] at h
+    obtain ⟨hf, hi⟩ := h
+    refine C05_unknown s hcustom j.method _ hf ?_
+    cases hinst : s.reg.inst with
+    | none => exact Or.inl rfl
+    | some inst =>
+      simp only [hinst, Bool.and_eq_true, Option.isNone_iff_eq_none] at hi
+      exact Or.inr ⟨inst, rfl, hi.1, hi.2⟩
+  | nobind =>
+    obtain ⟨t, f, hr, hb⟩ := h
+    rw [runDispatcher_resolves s hcustom _ _ t f hr]
+    simp [invoke, hb, handleCallExc, Fate.disp, Fate.effects]
+
+/-- The response object built from what `_dispatch` returned. -/
+private theorem respOf_fate (s : Server) (unconv : PyVal → PyM PyVal) (Ts : Transparent s.cfg s.conv unconv)
+    (fresh m : String) (o : Fate)
+    (hwf : ∀ t f v, o = .returns t f v → v.wfJson = true)
+    (hfree : s.cfg.useJsonclass = true → ∀ t f v, o = .returns t f v → jcFree v = true) :
+    respOf s s.cfg (.str fresh) (.ok (o.disp m)) = o.respDoc s.cfg (.str fresh) m := by
+  cases o with
+  | returns t f v =>
+    have hbr : buildResponse s s.cfg (.str fresh) (.value v) = .ok (Payload.response s.cfg.version (.str fresh) (tr s.cfg v)) := by
+      have := C14_dump_response s.cfg s.conv "" v (tr s.cfg v) .none (.str fresh) .none false (by rfl) (by simp)
+        (effConv_tr s.cfg s.conv unconv Ts v (hwf t f v rfl) (fun hu => hfree hu t f v rfl))
+      simpa [buildResponse, resolveVersion] using this
+    simp [Fate.disp, Fate.respDoc, respOf, hbr]
+  | raises t f cls text => simp [Fate.disp, Fate.respDoc, respOf, buildResponse, C14_dump_fault, resolveVersion]
+  | unknown => simp [Fate.disp, Fate.respDoc, respOf, buildResponse, C14_dump_fault, resolveVersion]
+  | nobind => simp [Fate.disp, Fate.respDoc, respOf, buildResponse, C14_dump_fault, resolveVersion]
+
+/-- The job as the MultiCall renders it: parameters through its (transparent) translator. -/
+def cj (cfg : Config) (j : Job) : Job := { j with params := tr cfg j.params }
+
+/-- The request documents of the batch, job `k` drawing the id `fresh (i + k)`. -/
+def docsOf (mcfg : Config) (fresh : Nat → String) : Nat → List (Job × Fate) → List PyVal
+  | _, [] => []
+  | i, x :: rest => jobDoc (fresh i, cj mcfg x.1) :: docsOf mcfg fresh (i + 1) rest
+
+/-- The response objects of the batch: one per job that is not a notification, in job order. -/
+def repliesOf (cfg : Config) (fresh : Nat → String) : Nat → List (Job × Fate) → List PyVal
+  | _, [] => []
+  | i, x :: rest =>
+    if x.1.notify then repliesOf cfg fresh (i + 1) rest
+    else x.2.respDoc cfg (.str (fresh i)) x.1.method :: repliesOf cfg fresh (i + 1) rest
+
+/-- The server's treatment of one parsed job document. -/
+private theorem entry_fate (s : Server) (unconv : PyVal → PyM PyVal) (Ts : Transparent s.cfg s.conv unconv)
+    (hcustom : s.custom = Option.none) (hpool : s.pool = .absent) (mcfg : Config)
+    (fresh : String) (hfresh : fresh ≠ "") (x : Job × Fate) (hg : JobSpec s.reg x)
+    (hfree : s.cfg.useJsonclass = true → JobFree x) :
+    respond s (normalise (jobDoc (fresh, cj mcfg x.1))) =
+      (if x.1.notify then Option.none else some (x.2.respDoc s.cfg (.str fresh) x.1.method)) ∧
+    entryEffects s (normalise (jobDoc (fresh, cj mcfg x.1))) = jobEffects x := by
+  have hsp : serverParams (tr mcfg x.1.params) = serverParams x.1.params := serverParams_congr (tr_norm _ _)
+  have hd := fate_dispatch s hcustom x.1 x.2 hg.hfate
+  rw [← hsp] at hd
+  have hs' := tr_shape mcfg _ hg.hshape
+  cases hn : x.1.notify with
+  | true =>
+    have sh := notifKVs_shape 20 (.str fresh) x.1.method (tr mcfg x.1.params)
+    have hent := entry_notify_disp s hpool sh hg.hname hs' _ _ hd
+    simp [jobDoc, cj, hn, normalise, respond, entryEffects, hent, jobEffects, hsp]
+  | false =>
+    have sh := reqKVs_shape 20 (.str fresh) (wfJson_str fresh) x.1.method (tr mcfg x.1.params)
+    have hent := entry_call_disp s sh hg.hname hfresh hs' _ _ hd
+    have hro := respOf_fate s unconv Ts fresh x.1.method x.2
+      (by
+        intro t f v ho
+        have := hg.hfate
+        rw [ho] at this
+        exact this.2.2.2 hn)
+      (fun hu t f v ho => (hfree hu).result t f v ho hn)
+    simp [jobDoc, cj, hn, normalise, respond, entryEffects, hent, requestConfig_true, hro, jobEffects, hsp]
+
+private theorem render_docs (B : Backend) (m : McConfig) (Tm : Transparent m.cfg m.conv pure) (fresh : Nat → String)
+    (js : List (Job × Fate)) (i : Nat)
+    (hgood : ∀ x ∈ js, (x.1.params.isTuple = true ∨ x.1.params.isDict = true ∨ x.1.params.isList = true) ∧
+      x.1.params.wfJson = true ∧ (m.cfg.useJsonclass = true → jcFree x.1.params = true)) :
+    ∃ ss, renderJobs B.codec m fresh i (js.map (·.1)) = .ok ss ∧
+      (docsOf m.cfg fresh i js).length = ss.length ∧
+      ∀ k (h1 : k < (docsOf m.cfg fresh i js).length) (h2 : k < ss.length),
+        ((docsOf m.cfg fresh i js)[k]).wfJson = true ∧ B.render ((docsOf m.cfg fresh i js)[k]) = .ok ss[k] := by
+  induction js generalizing i with
+  | nil => exact ⟨[], rfl, rfl, fun k h1 => absurd h1 (by simp [docsOf])⟩
+  | cons x rest ih =>
+    obtain ⟨hs, hw, hf⟩ := hgood x (by simp)
+    obtain ⟨ss, hss, hlen, hall⟩ := ih (i + 1) (fun y hy => hgood y (by simp [hy]))
+    have hwfd : (jobDoc (fresh i, cj m.cfg x.1)).wfJson = true := jobDoc_wf _ (tr_wf _ _ hw)
+    obtain ⟨s, hr, _, _⟩ := B.roundtrip _ hwfd
+    have hcont : containerParams x.1.params = true := by
+      rcases hs with h | h | h <;> simp [containerParams, h]
+    have hdump := C14_dump_request m.cfg m.conv (fresh i) x.1.params (tr m.cfg x.1.params) x.1.method .none (.num 20)
+      x.1.notify hcont (effConv_tr m.cfg m.conv pure Tm _ hw hf)
+    have hjr : jobRequest B.codec m (fresh i) x.1 = B.render (jobDoc (fresh i, cj m.cfg x.1)) := by
+      simp only [jobRequest, dumpsK, hdump, resolveVersion]
+      cases hn : x.1.notify <;> simp [jobDoc, cj, hn, notify_eq, request_eq, bind, Except.bind, Backend.codec]
+    refine ⟨s :: ss, ?_, by simp [docsOf, hlen], ?_⟩
+    · simp [renderJobs, hjr, hr, hss, bind, Except.bind, pure, Except.pure]
+    · intro k h1 h2
+      cases k with
+      | zero => simpa [docsOf] using ⟨hwfd, hr⟩
+      | succ k =>
+        have := hall k (by simpa [docsOf] using h1) (by simpa using h2)
+        simpa [docsOf] using this
+
+/-- Responses and effects of the whole batch, by induction on the job list. -/
+private theorem batch_fold_fate (s : Server) (unconv : PyVal → PyM PyVal) (Ts : Transparent s.cfg s.conv unconv)
+    (hcustom : s.custom = Option.none) (hpool : s.pool = .absent) (mcfg : Config)
+    (fresh : Nat → String) (hfresh : ∀ i, fresh i ≠ "") (js : List (Job × Fate)) (i : Nat)
+    (hall : ∀ x ∈ js, JobSpec s.reg x) (hfree : s.cfg.useJsonclass = true → ∀ x ∈ js, JobFree x) :
+    ((docsOf mcfg fresh i js).map normalise).filterMap (respond s) = repliesOf s.cfg fresh i js ∧
+    ((docsOf mcfg fresh i js).map normalise).flatMap (entryEffects s) = js.flatMap jobEffects := by
+  induction js generalizing i with
+  | nil => exact ⟨rfl, rfl⟩
+  | cons x rest ih =>
+    obtain ⟨ih1, ih2⟩ := ih (i + 1) (fun y hy => hall y (by simp [hy])) (fun hu y hy => hfree hu y (by simp [hy]))
+    obtain ⟨hr, he⟩ := entry_fate s unconv Ts hcustom hpool mcfg (fresh i) (hfresh i) x (hall x (by simp))
+      (fun hu => hfree hu x (by simp))
+    constructor
+    · simp only [docsOf, List.map_cons, List.filterMap_cons, hr, ih1, repliesOf]
+      cases x.1.notify <;> simp
+    · simp only [docsOf, List.map_cons, List.flatMap_cons, he, ih2]
+
+private theorem repliesOf_length (cfg : Config) (fresh : Nat → String) (js : List (Job × Fate)) (i : Nat) :
+    (repliesOf cfg fresh i js).length = (answered js).length := by
+  induction js generalizing i with
+  | nil => rfl
+  | cons x rest ih =>
+    simp only [repliesOf, answered, List.filter_cons]
+    cases x.1.notify <;> simp [ih (i + 1), answered]
+
+private theorem error_free (ver : Nat) (fresh : String) (c : Int) (m : String) :
+    jcFree (Payload.error ver (.str fresh) (.int c) (.str m) .none) = true := by
+  by_cases h : ver ≥ 20
+  · rw [error_v2 ver h]; simp [jcFree, jcFreeKVs]
+  · rw [error_v1 ver (by omega)]; simp [jcFree, jcFreeKVs]
+
+/-- Every response object is JSON-able and (when it matters) free of `__jsonclass__`. -/
+private theorem repliesOf_wf (reg : Registry) (cfg : Config) (fresh : Nat → String) (js : List (Job × Fate)) (i : Nat)
+    (hall : ∀ x ∈ js, JobSpec reg x) :
+    ∀ d ∈ repliesOf cfg fresh i js, d.wfJson = true := by
+  induction js generalizing i with
+  | nil => intro d hd; simp [repliesOf] at hd
+  | cons x rest ih =>
+    intro d hd
+    have ih' := ih (i + 1) (fun y hy => hall y (by simp [hy]))
+    simp only [repliesOf] at hd
+    cases hn : x.1.notify with
+    | true => simp only [hn, ↓reduceIte] at hd; exact ih' d hd
+    | false =>
+      simp only [hn, Bool.false_eq_true, ↓reduceIte, List.mem_cons] at hd
+      rcases hd with rfl | hd
+      · have hf := (hall x (by simp)).hfate
+        cases ho : x.2 with
+        | returns t f v =>
+          rw [ho] at hf
+          obtain ⟨kvs, hk, _, hwf⟩ := response_look cfg.version (.str (fresh i)) (tr cfg v)
+          simp only [Fate.respDoc, hk]
+          exact hwf (wfJson_str _) (tr_wf _ _ (hf.2.2.2 hn))
+        | raises t f cls text => exact (error_normal _ _ _ _).2
+        | unknown => exact (error_normal _ _ _ _).2
+        | nobind => exact (error_normal _ _ _ _).2
+      · exact ih' d hd
+
+private theorem repliesOf_free (cfg : Config) (fresh : Nat → String) (js : List (Job × Fate)) (i : Nat)
+    (hfree : ∀ x ∈ js, JobFree x) :
+    jcFreeList ((repliesOf cfg fresh i js).map normalise) = true := by
+  induction js generalizing i with
+  | nil => rfl
+  | cons x rest ih =>
+    have ih' := ih (i + 1) (fun y hy => hfree y (by simp [hy]))
+    simp only [repliesOf]
+    cases hn : x.1.notify with
+    | true => simpa using ih'
+    | false =>
+      simp only [Bool.false_eq_true, ↓reduceIte, List.map_cons, jcFreeList, ih', Bool.and_true]
+      cases ho : x.2 with
+      | returns t f v =>
+        exact jcFree_response _ _ _ (tr_free _ _ ((hfree x (by simp)).result t f v ho hn))
+      | raises t f cls text => exact jcFree_normalise _ (error_free _ _ _ _)
+      | unknown => exact jcFree_normalise _ (error_free _ _ _ _)
+      | nobind => exact jcFree_normalise _ (error_free _ _ _ _)
+
+private theorem docsOf_free (mcfg : Config) (fresh : Nat → String) (js : List (Job × Fate)) (i : Nat)
+    (hfree : ∀ x ∈ js, JobFree x) :
+    jcFreeList ((docsOf mcfg fresh i js).map normalise) = true := by
+  induction js generalizing i with
+  | nil => rfl
+  | cons x rest ih =>
+    have ih' := ih (i + 1) (fun y hy => hfree y (by simp [hy]))
+    have hp := tr_free mcfg _ (hfree x (by simp)).params
+    simp only [docsOf, List.map_cons, jcFreeList, ih', Bool.and_true]
+    cases hn : x.1.notify
+    · have hd : jobDoc (fresh i, cj mcfg x.1) = .dict (reqKVs 20 (.str (fresh i)) x.1.method (tr mcfg x.1.params)) := by
+        simp [jobDoc, cj, hn]
+      rw [hd]; exact jcFree_request 20 (fresh i) x.1.method _ hp
+    · have hd : jobDoc (fresh i, cj mcfg x.1) = .dict (notifKVs 20 (.str (fresh i)) x.1.method (tr mcfg x.1.params)) := by
+        simp [jobDoc, cj, hn]
+      rw [hd]; exact jcFree_notif 20 (fresh i) x.1.method _ hp
+
+/-- The client's reading of the response objects: position by position, the job's own outcome. -/
+private theorem client_replies (hg : Gate20) (cfg : Config) (hver : cfg.version = 10 ∨ cfg.version = 20)
+    (fresh : Nat → String) (js : List (Job × Fate)) (i : Nat) :
+    ((repliesOf cfg fresh i js).map normalise).map Client.proxyResult = (answered js).map jobClient := by
+  have hgate : cfg.version ≥ 20 → Client.versionAbove2 (.str (verStr cfg.version)) = .ok false := by
+    intro h20
+    have : cfg.version = 20 := by omega
+    rw [this, verStr20]; exact hg
+  have herr : ∀ (fr : String) (c : Int) (hc : c ∈ standardCodes) (msg : String),
+      Client.proxyResult (normalise (Payload.error cfg.version (.str fr) (.int c) (.str msg) .none)) =
+        .error { cls := "ProtocolError", arg := .tuple [.int c, .str msg] } := by
+    intro fr c hc msg
+    rw [(error_normal cfg.version fr c msg).1]
+    simp [Client.proxyResult, C05_client cfg.version (.str fr) c hc msg hgate, bind, Except.bind]
+  induction js generalizing i with
+  | nil => rfl
+  | cons x rest ih =>
+    simp only [repliesOf, answered, List.filter_cons]
+    cases hn : x.1.notify with
+    | true => simpa [answered] using ih (i + 1)
+    | false =>
+      simp only [Bool.false_eq_true, ↓reduceIte, Bool.not_false, List.map_cons]
+      rw [ih (i + 1)]
+      congr 1
+      cases ho : x.2 with
+      | returns t f v =>
+        simp only [Fate.respDoc, jobClient, ho, Fate.client]
+        rw [client_result hg _ hver, tr_norm]
+      | raises t f cls text =>
+        simp only [Fate.respDoc, jobClient, ho, Fate.client]
+        exact herr _ _ (by decide) _
+      | unknown =>
+        simp only [Fate.respDoc, jobClient, ho, Fate.client]
+        exact herr _ _ (by decide) _
+      | nobind =>
+        simp only [Fate.respDoc, jobClient, ho, Fate.client]
+        exact herr _ _ (by decide) _
+
+private theorem get_of_map_eq {α β γ : Type} (f : α → γ) (g : β → γ) (xs : List α) (ys : List β)
+    (h : xs.map f = ys.map g) (i : Nat) (hi : i < ys.length) :
+    ∃ x, xs[i]? = some x ∧ f x = g ys[i] := by
+  have h2 : (xs.map f)[i]? = (ys.map g)[i]? := by rw [h]
+  simp only [List.getElem?_map, List.getElem?_eq_getElem hi, Option.map_some] at h2
+  cases hx : xs[i]? with
+  | none => simp [hx] at h2
+  | some x => exact ⟨x, rfl, by simpa [hx] using h2⟩
+
+private theorem mapM_of_map_ok (f : PyVal → PyM PyVal) (xs vs : List PyVal)
+    (h : xs.map f = vs.map (fun v => Except.ok v)) : xs.mapM f = .ok vs := by
+  induction xs generalizing vs with
+  | nil =>
+    cases vs with
+    | nil => rfl
+    | cons _ _ => simp at h
+  | cons x rest ih =>
+    cases vs with
+    | nil => simp at h
+    | cons v vs' =>
+      simp only [List.map_cons, List.cons.injEq] at h
+      simp [List.mapM_cons, h.1, ih vs' h.2, bind, Except.bind, pure, Except.pure]
+
+private theorem flatMap_single {α β : Type} (f : α → List β) (g : α → β) (xs : List α) (h : ∀ x ∈ xs, f x = [g x]) :
+    xs.flatMap f = xs.map g := by
+  induction xs with
+  | nil => rfl
+  | cons x rest ih => simp [List.flatMap_cons, h x (by simp), ih (fun y hy => h y (by simp [hy]))]
+
+private theorem jcFree_list_of (xs : List PyVal) (h : jcFreeList xs = true) : jcFree (.list xs) = true := by
+  simpa [jcFree] using h
+
+/-- MultiCall batch, ANY mixture: every job has one of four fates (returns, raises, unknown method,
+    parameters that do not bind) and may be a call or a notification; class translation may be on or off
+    on each of the three sides (proxy, MultiCall, server) provided the translators are `Transparent` and —
+    only when some flag is on — the payloads are free of `"__jsonclass__"`.  Then:
+    * the server invoked exactly the callables of the jobs that return or raise, once each, in job
+      order, with the job's parameters, and nothing for unknown / non-binding jobs (`jobEffects`);
+    * the iterator has one position per job that is not a notification, in job order (`answered`);
+      accessing position `i` gives that job's own outcome: its normalised return value, or
+      `ProtocolError((-32603 | -32601 | -32602, message))` — whatever happened to the other jobs;
+    * the History gained exactly the batch text and the reply text (`""` iff all jobs are notifications). -/
+theorem C01_batch_mixed (B : Backend) (hg : Gate20) (c : Proxy) (m : McConfig) (p : Peer) (h : History)
+    (fresh : Nat → String) (js : List (Job × Fate))
+    (Tc : Transparent c.cfg c.conv c.unconv) (Tm : Transparent m.cfg m.conv pure)
+    (Ts : Transparent p.srv.cfg p.srv.conv p.unconv)
+    (hsv : p.srv.cfg.version = 10 ∨ p.srv.cfg.version = 20)
+    (hcustom : p.srv.custom = Option.none) (hpool : p.srv.pool = .absent)
+    (hfresh : ∀ i, fresh i ≠ "") (hne : js ≠ [])
+    (hall : ∀ x ∈ js, JobSpec p.srv.reg x)
+    (hfree : (c.cfg.useJsonclass || m.cfg.useJsonclass || p.srv.cfg.useJsonclass) = true → ∀ x ∈ js, JobFree x) :
+    ∃ texts rep rs,
+      renderJobs B.codec m fresh 0 (js.map (·.1)) = .ok texts ∧
+      serve B.codec p (batchBody texts) = (.ok rep, js.flatMap jobEffects) ∧
+      (rep = "" ↔ ∀ x ∈ js, x.1.notify = true) ∧
+      (multicall B.codec c m p h fresh (js.map (·.1))).value = .ok (.iterator (.list rs)) ∧
+      rs.map Client.proxyResult = (answered js).map jobClient ∧
+      iterLen (.list rs) = .ok (answered js).length ∧
+      (∀ i (hi : i < (answered js).length), iterGet (.list rs) i = jobClient (answered js)[i]) ∧
+      (multicall B.codec c m p h fresh (js.map (·.1))).effects = js.flatMap jobEffects ∧
+      (multicall B.codec c m p h fresh (js.map (·.1))).history =
+        { requests := h.requests ++ [batchBody texts], responses := h.responses ++ [rep] } := by
+  have hfc : c.cfg.useJsonclass = true → ∀ x ∈ js, JobFree x := fun hu => hfree (by simp [hu])
+  have hfm : m.cfg.useJsonclass = true → ∀ x ∈ js, JobFree x := fun hu => hfree (by simp [hu])
+  have hfs : p.srv.cfg.useJsonclass = true → ∀ x ∈ js, JobFree x := fun hu => hfree (by simp [hu])
+  obtain ⟨docs, hdocs⟩ : ∃ d, d = docsOf m.cfg fresh 0 js := ⟨_, rfl⟩
+  obtain ⟨ss, hss, hlen, hrend⟩ := render_docs B m Tm fresh js 0
+    (fun x hx => ⟨(hall x hx).hshape, (hall x hx).hwf, fun hu => (hfm hu x hx).params⟩)
+  rw [← hdocs] at hlen hrend
+  have hparse := B.batch docs ss hlen hrend
+  have hparse' : B.codec.parse (batchBody ss) = some (.list (docs.map normalise)) := hparse
+  have hbne : (batchBody ss == "") = false := by simpa using batchBody_ne ss
+  have hsload : Payload.load p.srv.cfg p.unconv (.list (docs.map normalise)) = .ok (.list (docs.map normalise)) :=
+    load_tr _ _ _ Ts _ (fun hu => jcFree_list_of _ (by rw [hdocs]; exact docsOf_free _ _ _ _ (hfs hu))) (by simp)
+  have hsparse : serverParse B.codec p (batchBody ss) = .ok (.parsed (.list (docs.map normalise))) := by
+    simp [serverParse, loadsK, hbne, hparse', hsload, pure, Except.pure]
+  have hentries : docs.map normalise ≠ [] := by
+    cases js with
+    | nil => exact absurd rfl hne
+    | cons x rest => simp [hdocs, docsOf]
+  obtain ⟨hresp, heffs⟩ := batch_fold_fate p.srv p.unconv Ts hcustom hpool m.cfg fresh hfresh js 0 hall hfs
+  rw [← hdocs] at hresp heffs
+  have hmd := marshaled_batch p.srv (by simp [hpool]) _ hentries
+  rw [hresp, heffs] at hmd
+  obtain ⟨resps, hrespsdef⟩ : ∃ r, r = repliesOf p.srv.cfg fresh 0 js := ⟨_, rfl⟩
+  rw [← hrespsdef] at hmd
+  have hrlen : resps.length = (answered js).length := by rw [hrespsdef]; exact repliesOf_length _ _ _ _
+  have hallnotif : resps = [] ↔ ∀ x ∈ js, x.1.notify = true := by
+    rw [← List.length_eq_zero_iff, hrlen, List.length_eq_zero_iff]
+    simp [answered, List.filter_eq_nil_iff]
+  have hd : renderJobs B.codec m fresh 0 (js.map (·.1)) = .ok ss := hss
+  have hjl : ¬ (js.map (·.1)).length < 1 := by
+    cases js with
+    | nil => exact absurd rfl hne
+    | cons _ _ => simp
+  have hcli := client_replies hg p.srv.cfg hsv fresh js 0
+  rw [← hrespsdef] at hcli
+  have hget : ∀ (rs : List PyVal), rs.map Client.proxyResult = (answered js).map jobClient →
+      iterLen (.list rs) = .ok (answered js).length ∧
+      (∀ i (hi : i < (answered js).length), iterGet (.list rs) i = jobClient (answered js)[i]) := by
+    intro rs hmap
+    have hl : rs.length = (answered js).length := by simpa using congrArg List.length hmap
+    refine ⟨by simp [iterLen, hl, pure, Except.pure], ?_⟩
+    intro i hi
+    obtain ⟨x, hx, hfx⟩ := get_of_map_eq _ _ _ _ hmap i hi
+    simp [iterGet, Client.multicallGet, hx, hfx]
+  cases hans : resps with
+  | nil =>
+    -- every job is a notification: empty body, empty result list
+    simp only [hans, List.isEmpty_nil, ↓reduceIte] at hmd
+    have hserve : serve B.codec p (batchBody ss) = (.ok "", js.flatMap jobEffects) := by
+      simp only [serve, hsparse, hmd]
+    have hmap : ([] : List PyVal).map Client.proxyResult = (answered js).map jobClient := by
+      have : (answered js) = [] := by
+        rw [← List.length_eq_zero_iff, ← hrlen, hans]; rfl
+      rw [this]; rfl
+    refine ⟨ss, "", [], hd, hserve, ?_, ?_, hmap, (hget [] hmap).1, (hget [] hmap).2, ?_, ?_⟩
+    · exact ⟨fun _ => hallnotif.mp hans, fun _ => rfl⟩
+    · simp [multicall, hjl, hne, hd, runRequest, hserve, wrapResponses, Except.bind, pure, Except.pure, truthy]
+    · simp [multicall, hjl, hne, hd, runRequest, hserve]
+    · simp [multicall, hjl, hne, hd, runRequest, hserve, History.addRequest, History.addResponse]
+  | cons a rest =>
+    have hrne : resps.isEmpty = false := by simp [hans]
+    have hrwf : (PyVal.list resps).wfJson = true := by
+      apply wfJson_list
+      rw [hrespsdef]
+      exact repliesOf_wf p.srv.reg _ _ _ _ hall
+    simp only [hrne, Bool.false_eq_true, ↓reduceIte, finalReply, serialisable_of_wfJson _ hrwf] at hmd
+    obtain ⟨rep, hrender2, hrepne, hparse2⟩ := B.roundtrip _ hrwf
+    have hserve : serve B.codec p (batchBody ss) = (.ok rep, js.flatMap jobEffects) := by
+      simp only [serve, hsparse, hmd]
+      simp [Backend.codec, hrender2]
+    have hne2 : (rep == "") = false := by simpa using hrepne
+    have hparse2' : B.codec.parse rep = some (.list (resps.map normalise)) := by
+      have : B.parse rep = some (normalise (.list resps)) := hparse2
+      simpa [normalise, normaliseList_eq_map, Backend.codec] using this
+    have hcload : Payload.load c.cfg c.unconv (.list (resps.map normalise)) = .ok (.list (resps.map normalise)) :=
+      load_tr _ _ _ Tc _ (fun hu => jcFree_list_of _ (by rw [hrespsdef]; exact repliesOf_free _ _ _ _ (hfc hu))) (by simp)
+    have htr : (PyVal.list (resps.map normalise)).truthy = true := by
+      rw [hans]; simp [truthy]
+    refine ⟨ss, rep, resps.map normalise, hd, hserve, ?_, ?_, hcli, (hget _ hcli).1, (hget _ hcli).2, ?_, ?_⟩
+    · constructor
+      · intro h0; exact absurd h0 hrepne
+      · intro hn; rw [← hallnotif, hans] at hn; exact absurd hn (by simp)
+    · simp [multicall, hjl, hne, hd, runRequest, hserve, hne2, loadsK, hparse2', hcload, wrapResponses,
+        Except.bind, htr, pure, Except.pure]
+    · simp [multicall, hjl, hne, hd, runRequest, hserve]
+    · simp [multicall, hjl, hne, hd, runRequest, hserve, History.addRequest, History.addResponse]
+
+/-- The fate of a job of `C01_batch`'s form (a callable `fn j` of kind `tgt j` that binds): it returns or
+    it raises. -/
+def fateOf (tgt : Job → Target) (fn : Job → Callable) (j : Job) : Fate :=
+  match (fn j).body (serverParams j.params) with
+  | .ret v => .returns (tgt j) (fn j) v
+  | .raised cls text _ _ => .raises (tgt j) (fn j) cls text
+
+/-- `C01_batch` with class translation ON (any combination of the proxy's, the MultiCall's and the
+    server's flags) for payloads free of `"__jsonclass__"` and transparent translators (what C15 establishes
+    for the real `jsonclass`); formerly recorded as not proved. -/
 def C01_batch_jsonclass_full_statement : Prop :=
   ∀ (B : Backend) (_ : Gate20) (c : Proxy) (m : McConfig) (p : Peer) (h : History)
     (fresh : Nat → String) (jobs : List Job) (tgt : Job → Target) (fn : Job → Callable) (ret : Job → PyVal),
@@ -1006,8 +1598,70 @@ def C01_batch_jsonclass_full_statement : Prop :=
       (multicall B.codec c m p h fresh jobs).effects =
         jobs.map (fun j => Effect.call (tgt j) (.str j.method) (serverParams j.params))
 
-/-- The proved part of `C01_batch_jsonclass_full_statement`: all translation flags off (then `Transparent`
-    holds vacuously and no `jcFree` hypothesis is needed). -/
+theorem C01_batch_jsonclass : C01_batch_jsonclass_full_statement := by
+  intro B hg c m p h fresh jobs tgt fn ret Tc Tm Ts hsv hcustom hpool hfresh hne hall
+  obtain ⟨js, hjs⟩ : ∃ x, x = jobs.map (fun j => (j, fateOf tgt fn j)) := ⟨_, rfl⟩
+  have hfst : js.map (·.1) = jobs := by rw [hjs, List.map_map]; simp [Function.comp_def]
+  have hspec : ∀ x ∈ js, JobSpec p.srv.reg x ∧ JobFree x ∧ jobEffects x = [Effect.call (tgt x.1) (.str x.1.method) (serverParams x.1.params)] ∧
+      (x.1.notify = false → jobClient x = .ok (ret x.1).normalise) := by
+    intro x hx
+    rw [hjs] at hx
+    simp only [List.mem_map] at hx
+    obtain ⟨j, hj, rfl⟩ := hx
+    obtain ⟨hgood, hfp, hfr⟩ := hall j hj
+    cases hbody : (fn j).body (serverParams j.params) with
+    | ret v =>
+      have hfate : fateOf tgt fn j = .returns (tgt j) (fn j) v := by simp [fateOf, hbody]
+      have hv : j.notify = false → v = ret j := by
+        intro hn
+        have := (hgood.hret hn).1
+        rw [hbody] at this
+        injection this
+      refine ⟨⟨hgood.hname, hgood.hshape, hgood.hwf, ?_⟩, ⟨hfp, ?_⟩, ?_, ?_⟩
+      · simp only [hfate, Fate.holds]
+        exact ⟨hgood.hres, hgood.hbind, hbody, fun hn => by rw [hv hn]; exact (hgood.hret hn).2⟩
+      · intro t f v' ho hn
+        simp only [hfate, Fate.returns.injEq] at ho
+        rw [← ho.2.2, hv hn]; exact hfr hn
+      · simp [jobEffects, hfate, Fate.effects]
+      · intro hn; simp [jobClient, hfate, Fate.client, hv hn]
+    | raised cls text te ae =>
+      have hfate : fateOf tgt fn j = .raises (tgt j) (fn j) cls text := by simp [fateOf, hbody]
+      refine ⟨⟨hgood.hname, hgood.hshape, hgood.hwf, ?_⟩, ⟨hfp, ?_⟩, ?_, ?_⟩
+      · simp only [hfate, Fate.holds]
+        exact ⟨hgood.hres, hgood.hbind, te, ae, hbody⟩
+      · intro t f v' ho; simp [hfate] at ho
+      · simp [jobEffects, hfate, Fate.effects]
+      · intro hn
+        have := (hgood.hret hn).1
+        rw [hbody] at this
+        cases this
+  obtain ⟨texts, rep, rs, _, _, _, hval, hmap, _, _, heff, _⟩ :=
+    C01_batch_mixed B hg c m p h fresh js Tc Tm Ts hsv hcustom hpool hfresh
+      (by intro h0; rw [h0] at hfst; exact hne (by simpa using hfst.symm))
+      (fun x hx => (hspec x hx).1) (fun _ x hx => (hspec x hx).2.1)
+  rw [hfst] at hval heff
+  refine ⟨.list rs, hval, ?_, ?_⟩
+  · simp only [iterAll]
+    apply mapM_of_map_ok
+    rw [hmap]
+    have : answered js = (jobs.filter (fun j => !j.notify)).map (fun j => (j, fateOf tgt fn j)) := by
+      rw [hjs, answered, List.filter_map]; rfl
+    rw [List.map_map]
+    rw [this, List.map_map]
+    apply List.map_congr_left
+    intro j hj
+    simp only [List.mem_filter, Bool.not_eq_true'] at hj
+    have hx : (j, fateOf tgt fn j) ∈ js := by rw [hjs]; exact List.mem_map.mpr ⟨j, hj.1, rfl⟩
+    simpa using (hspec _ hx).2.2.2 hj.2
+  · rw [heff, hjs, List.flatMap_map]
+    have : ∀ j ∈ jobs, jobEffects (j, fateOf tgt fn j) = [Effect.call (tgt j) (.str j.method) (serverParams j.params)] := by
+      intro j hj
+      exact (hspec _ (by rw [hjs]; exact List.mem_map.mpr ⟨j, hj, rfl⟩)).2.2.1
+    exact flatMap_single _ _ jobs this
+
+/-- The same with all translation flags off (then `Transparent` holds vacuously and no `jcFree`
+    hypothesis is needed); kept under its former name. -/
 theorem C01_batch_jsonclass_partial (B : Backend) (hg : Gate20) (c : Proxy) (m : McConfig) (p : Peer) (h : History)
     (fresh : Nat → String) (jobs : List Job) (tgt : Job → Target) (fn : Job → Callable) (ret : Job → PyVal)
     (hcoff : c.cfg.useJsonclass = false) (hmoff : m.cfg.useJsonclass = false) (hsoff : p.srv.cfg.useJsonclass = false)
@@ -1024,17 +1678,6 @@ theorem C01_batch_jsonclass_partial (B : Backend) (hg : Gate20) (c : Proxy) (m :
     C01_batch B hg c m p h fresh jobs tgt fn ret hcoff hmoff hsoff hsv hcustom hpool hfresh hne hall
   exact ⟨results, hval, hiter, heff⟩
 
-/-- NOT PROVED (same reason): `C01_notify` with class translation on.  Proved: `C01_notify` (off). -/
-def C01_notify_jsonclass_full_statement : Prop :=
-  ∀ (B : Backend) (c : Proxy) (p : Peer) (h : History) (fresh name : String) (params : PyVal) (t : Target) (f : Callable),
-    Transparent c.cfg c.conv c.unconv → Transparent p.srv.cfg p.srv.conv p.unconv →
-    p.srv.custom = Option.none → p.srv.pool = .absent → name ≠ "" →
-    (params.isTuple = true ∨ params.isDict = true) → params.wfJson = true → jcFree params = true →
-    resolves p.srv.reg name = some (t, f) → binds f.sig (serverParams params) = true →
-    (requestNotify B.codec c p h fresh name params).value = .ok .none ∧
-    (requestNotify B.codec c p h fresh name params).effects = [.call t (.str name) (serverParams params)] ∧
-    (requestNotify B.codec c p h fresh name params).history.responses = h.responses ++ [""]
-
 /- ---------- tie to the source ---------- -/
 
 /-- `_Method.__call__` raises ProtocolError for both styles at once, sends `args` when there are
@@ -1042,7 +1685,7 @@ def C01_notify_jsonclass_full_statement : Prop :=
     neither (`methodParams`; which empty container is immaterial: `C01_no_args`). -/
 theorem C01_gen_methodSendsArgsElseKwargs : Generated.methodSendsArgsElseKwargs = some methodCallShape := by decide
 
-theorem C01_methodParams_shape (args : List PyVal) (kwargs : List (PyVal × PyVal)) (hself : hasKeyStr "self" kwargs = false) :
+theorem C01_methodParams_shape (args : List PyVal) (kwargs : List (PyVal × PyVal)) :
     (args ≠ [] → kwargs ≠ [] → ∃ e, methodParams args kwargs = .error e ∧ e.cls = "ProtocolError") ∧
     (args ≠ [] → kwargs = [] → methodParams args kwargs = .ok (.tuple args)) ∧
     (args = [] → methodParams args kwargs = .ok (.dict kwargs)) := by
@@ -1053,7 +1696,7 @@ theorem C01_methodParams_shape (args : List PyVal) (kwargs : List (PyVal × PyVa
     cases args <;> simp_all [methodParams, truthy, pure, Except.pure, hasKeyStr, lookupStr]
   · intro ha
     subst ha
-    simp [methodParams, truthy, hself, pure, Except.pure]
+    simp [methodParams, truthy, pure, Except.pure]
 
 /-- `ServerProxy._request` returns `response["result"]` after `check_for_errors(response)` (`Client.proxyResult`). -/
 theorem C01_gen_requestReturnsResult : Generated.requestReturnsResult = some requestResultShape := by decide
@@ -1106,6 +1749,57 @@ example : JobGood exReg (fun _ => .func)
     { method := "boom", params := .tuple [.int 1], notify := true } :=
   { hname := by decide, hshape := Or.inl rfl, hwf := by decide +kernel, hres := rfl, hbind := by decide +kernel,
     hret := by intro h; cases h }
+-- `C01_kwargs` (and MultiCall jobs) with a keyword called `self`: an ordinary keyword since fix 04aca15
+example : methodParams [] [(.str "self", .int 1), (.str "k", .tuple [])] =
+    .ok (.dict [(.str "self", .int 1), (.str "k", .tuple [])]) := rfl
+example : jobParams [] [(.str "self", .int 1), (.str "k", .tuple [])] =
+    .ok (.dict [(.str "self", .int 1), (.str "k", .tuple [])]) := rfl
+example : ([(.str "self", .int 1), (.str "k", .tuple [])] : List (PyVal × PyVal)) ≠ [] ∧
+    hasKeyStr "self" [(.str "self", .int 1), (.str "k", .tuple [])] = true ∧
+    (PyVal.dict [(.str "self", .int 1), (.str "k", .tuple [])]).wfJson = true ∧
+    binds ({ names := ["self"], kw := true } : Sig) (.dict (normaliseKVs [(.str "self", .int 1), (.str "k", .tuple [])])) = true := by
+  refine ⟨by simp, ?_, ?_, ?_⟩ <;> decide +kernel
+-- `C01_batch_mixed`: one job of each fate (a call that returns, a call that raises, an unknown method, parameters
+-- that do not bind) and a notification whose callable raises; the hypotheses hold, and the theorem's conclusion
+-- reads: four iterator positions (value, −32603, −32601, −32602), three invocations
+private def exAdd : Callable := { sig := { names := ["a", "b"] }, body := fun p => .ret (.tuple [p, .int 0]) }
+private def exBoom : Callable := { sig := { names := [], star := true }, body := fun _ => .raised "ValueError" "boom" false false }
+private def exJobs : List (Job × Fate) :=
+  [({ method := "ns.add", params := .tuple [.int 1, .tuple [.str "é"]], notify := false },
+      .returns .func exAdd (.tuple [.list [.int 1, .list [.str "é"]], .int 0])),
+   ({ method := "boom", params := .dict [], notify := false }, .raises .func exBoom "ValueError" "boom"),
+   ({ method := "nosuch", params := .tuple [.int 1], notify := false }, .unknown),
+   ({ method := "ping", params := .tuple [.int 1], notify := false }, .nobind),
+   ({ method := "boom", params := .tuple [.int 1], notify := true }, .raises .func exBoom "ValueError" "boom")]
+example : ∀ x ∈ exJobs, JobSpec exReg x ∧ JobFree x := by
+  intro x hx
+  simp only [exJobs, List.mem_cons, List.not_mem_nil, or_false] at hx
+  rcases hx with rfl | rfl | rfl | rfl | rfl
+  · exact ⟨{ hname := by decide, hshape := Or.inl rfl, hwf := by decide +kernel,
+              hfate := ⟨rfl, by decide +kernel, rfl, fun _ => by decide +kernel⟩ },
+           { params := by decide +kernel, result := fun t f v h _ => by injection h with _ _ h; subst h; decide +kernel }⟩
+  · exact ⟨{ hname := by decide, hshape := Or.inr (Or.inl rfl), hwf := by decide +kernel,
+              hfate := ⟨rfl, by decide +kernel, false, false, rfl⟩ },
+           { params := by decide +kernel, result := fun t f v h _ => by cases h }⟩
+  · exact ⟨{ hname := by decide, hshape := Or.inl rfl, hwf := by decide +kernel,
+              hfate := (by show unknownName exReg "nosuch" = true; decide +kernel) },
+           { params := by decide +kernel, result := fun t f v h _ => by cases h }⟩
+  · exact ⟨{ hname := by decide, hshape := Or.inl rfl, hwf := by decide +kernel,
+              hfate := ⟨.func, { sig := { names := [] }, body := fun _ => .ret (.bool false) }, rfl, by decide +kernel⟩ },
+           { params := by decide +kernel, result := fun t f v h _ => by cases h }⟩
+  · exact ⟨{ hname := by decide, hshape := Or.inl rfl, hwf := by decide +kernel,
+              hfate := ⟨rfl, by decide +kernel, false, false, rfl⟩ },
+           { params := by decide +kernel, result := fun t f v h _ => by cases h }⟩
+example : (answered exJobs).map jobClient =
+    [.ok (.list [.list [.int 1, .list [.str "é"]], .int 0]),
+     .error { cls := "ProtocolError", arg := .tuple [.int (-32603), .str "Server error: ValueError: boom"] },
+     .error { cls := "ProtocolError", arg := .tuple [.int (-32601), .str "Method nosuch not supported."] },
+     .error { cls := "ProtocolError", arg := .tuple [.int (-32602), .str msgParams] }] := by
+  simp [answered, exJobs, jobClient, Fate.client, normalise, normaliseList, msgServerError, msgUnknown]
+example : exJobs.flatMap jobEffects =
+    [.call .func (.str "ns.add") (.list [.int 1, .list [.str "é"]]), .call .func (.str "boom") (.list []),
+     .call .func (.str "boom") (.list [.int 1])] := by
+  simp [exJobs, jobEffects, Fate.effects, serverParams, truthy, normalise, normaliseList]
 -- `C01_single_jsonclass`: a transparent translator
 example : Transparent { useJsonclass := true } (fun v => pure v.normalise) pure :=
   { conv_ok := fun _ _ _ _ => rfl, unconv_ok := fun _ _ _ => rfl }
